@@ -301,12 +301,36 @@ theorem shiftMask_generated_width (W : Nat) (hW : 1 ≤ W) :
     (W : Int) + KernelsCbcaGlue.shiftMaskWidthDelta = ((W - 1 : Nat) : Int) := by
   unfold KernelsCbcaGlue.shiftMaskWidthDelta; omega
 
+/-- the tests of the three mask stores, however the source writes the comparison: the cell differs from `valid_pixels` -/
+theorem leftMaskTest_generated_eq (m v nd : Int) : KernelsCbcaGlue.leftMaskTest m v nd = (m != v) := by
+  unfold KernelsCbcaGlue.leftMaskTest
+  by_cases h : m = v
+  · subst h; simp
+  · have h' : ¬ v = m := fun e => h e.symm
+    simp [h, h']
+
+theorem rightMaskTest_generated_eq (m v nd : Int) : KernelsCbcaGlue.rightMaskTest m v nd = (m != v) := by
+  unfold KernelsCbcaGlue.rightMaskTest
+  by_cases h : m = v
+  · subst h; simp
+  · have h' : ¬ v = m := fun e => h e.symm
+    simp [h, h']
+
+theorem shiftMaskTest_generated_eq (m v nd : Int) : KernelsCbcaGlue.shiftMaskTest m v nd = (m != v) := by
+  unfold KernelsCbcaGlue.shiftMaskTest
+  by_cases h : m = v
+  · subst h; simp
+  · have h' : ¬ v = m := fun e => h e.symm
+    simp [h, h']
+
 theorem prepLeft_generated_eq (inp : Input) (nodata : Int) :
     runPrep inp.H inp.W inp.hasMskL inp.mskL inp.validL nodata 0 KernelsCbcaGlue.prepLeft (fun y x => .num (inp.imL y x))
       = inp.filteredL := by
   unfold KernelsCbcaGlue.prepLeft runPrep Input.filteredL
   simp only [List.foldl, applyPrep, KernelsCbcaGlue.prefilterSize, if_true]
-  congr 1 <;> (funext y x; simp [maskedImg, KernelsCbcaGlue.leftMaskGuard, KernelsCbcaGlue.leftMaskTest])
+  refine congrArg (median3 inp.H inp.W) ?_
+  funext y x
+  simp [maskedImg, KernelsCbcaGlue.leftMaskGuard, leftMaskTest_generated_eq]
 
 theorem prepRight_generated_eq (inp : Input) (k : Nat) (nodata : Int) :
     runPrep inp.H (if k = 0 then inp.W else inp.W - 1) inp.hasMskR inp.mskR inp.validR nodata k KernelsCbcaGlue.prepRight
@@ -315,12 +339,14 @@ theorem prepRight_generated_eq (inp : Input) (k : Nat) (nodata : Int) :
   simp only [List.foldl, applyPrep, KernelsCbcaGlue.prefilterSize, if_true]
   by_cases hk : k = 0
   · simp only [hk, if_true]
-    congr 1 <;> funext y x <;>
-      simp [maskedImg, rawShift, KernelsCbcaGlue.rightMaskGuard, KernelsCbcaGlue.rightMaskTest, KernelsCbcaGlue.shiftMaskGuard]
+    refine congrArg (median3 inp.H inp.W) ?_
+    funext y x
+    simp [maskedImg, rawShift, KernelsCbcaGlue.rightMaskGuard, rightMaskTest_generated_eq, KernelsCbcaGlue.shiftMaskGuard]
   · simp only [hk, if_false]
-    congr 1 <;> funext y x <;>
-      simp [shiftedImg, rawShift, hk, KernelsCbcaGlue.rightMaskGuard, KernelsCbcaGlue.shiftMaskGuard,
-        KernelsCbcaGlue.shiftMaskTest, KernelsCbcaGlue.shiftMaskOffsets]
+    refine congrArg (median3 inp.H (inp.W - 1)) ?_
+    funext y x
+    simp [shiftedImg, rawShift, hk, KernelsCbcaGlue.rightMaskGuard, KernelsCbcaGlue.shiftMaskGuard,
+      shiftMaskTest_generated_eq, KernelsCbcaGlue.shiftMaskOffsets]
 
 /-! ## the whole step on an `Input` -/
 
